@@ -624,6 +624,21 @@ pub fn check_build(o: &BuildObs, or: &Oracles, stats: &mut Stats, out: &mut Vec<
                 },
             }
         }
+        // "naming the missing file or ungenerated target": the text the user reads must contain the path
+        if let Verdict::WorkErrors(es) = &exp_verdict
+        {
+            if o.rr.verdict == exp_verdict
+            {
+                for e in es
+                {
+                    let p = match e { WErr::FileNotFound(p) | WErr::TargetFileNotGenerated(p) => p, _ => continue };
+                    if !o.rr.error_text.contains(p.as_str())
+                    {
+                        out.push(Finding { property: "C04", what: "the error message does not name the missing file or ungenerated target".into(), detail: format!("{:?} not in {:?}", p, o.rr.error_text) });
+                    }
+                }
+            }
+        }
         if exp_verdict != Verdict::Ok { stats.nontrivial += 1; }
     }
 
@@ -1137,6 +1152,17 @@ pub fn check_c17(o: &BuildObs, stats: &mut Stats, out: &mut Vec<Finding>)
                   else { "contradiction names the wrong targets".to_string() },
             detail: format!("expected Contradiction{:?}, got {:?} (verdict {:?})", a, b, o.rr.verdict),
         });
+    }
+    // what the user reads names the differing targets too
+    if a == b
+    {
+        for p in a.iter().flatten()
+        {
+            if !o.rr.error_text.contains(p.as_str())
+            {
+                out.push(Finding { property: "C17", what: "the contradiction message does not name a differing target".into(), detail: format!("{:?} not in {:?}", p, o.rr.error_text) });
+            }
+        }
     }
     // builds of other rules are unaffected: every rule that is not contradicted and not downstream of one
     // must have run at most once and, if its command ran without error, its record must now exist
